@@ -21,7 +21,7 @@ func init() {
 				"no-return; Slice is only applied to a value whose kind was tested. (C06.conv) every reflect Convert is reached only after ConvertibleTo on the same value (or the []byte→string " +
 				"kind test) and its result is used. (C06.unexp) a struct field value returned by resolveIndex comes from the exported-only cache (buildCache stores a field only under PkgPath == \"\") " +
 				"or lies behind the PkgPath test. (C06.nil) resolveIndex tests for a nil interface before MethodByName, indirect() stops at nil, every failing return of the resolver carries a " +
-				"non-nil error, and the only (zero value, nil error) result is the absent map key at the end of a chain. (C06.same) a.b, a.b.c, a[\"b\"] and isset all resolve through resolveIndex " +
+				"non-nil error, the only (zero value, nil error) result is the absent map key at the end of a chain, and promoted fields are reached by a walker that tests IsNil before Elem (never reflect.Value.FieldByIndex, which panics on a nil embedded pointer). (C06.same) a.b, a.b.c, a[\"b\"] and isset all resolve through resolveIndex " +
 				"and perform no reflect lookup of their own. (C06.cache) every value stored into the struct field-index cache (the per-type map and each field's index path) is a fresh allocation made for that entry, never storage shared with a sibling path or the caller.",
 			NotDecided:  "that reflection finds the right field for every type shape (promoted/shadowed fields), pointer-receiver methods on non-addressable values, executeSet's writes.",
 			Assumptions: []string{"Go's reflect package panics exactly as documented"},
@@ -42,6 +42,9 @@ func init() {
 			{Name: "field paths share the parent's backing array (agent seed C06/1)", File: "eval.go", Old: "\t\tindex := make([]int, max)\n\t\tcopy(index, parent)\n\t\tindex[len(parent)] = i\n", New: "\t\tindex := append(parent, i)\n\t\t_ = max\n", Rule: "C06.cache"},
 			{Name: "one scratch path allocated outside the field loop", File: "eval.go", Old: "\tfor i := 0; i < numFields; i++ {\n\n\t\tindex := make([]int, max)\n", New: "\tindex := make([]int, max)\n\tfor i := 0; i < numFields; i++ {\n\n", Rule: "C06.cache"},
 			{Name: "equivalent: path built by appending onto a clipped copy", File: "eval.go", Old: "\t\tindex := make([]int, max)\n\t\tcopy(index, parent)\n\t\tindex[len(parent)] = i\n", New: "\t\tindex := append(parent[:len(parent):len(parent)], i)\n\t\t_ = max\n", Rule: "-"},
+			{Name: "promoted field read with FieldByIndex (original defect: nil embedded pointer panics)", File: "eval.go", Old: "\t\t\tfield, err := fieldByIndex(v, id)\n\t\t\tif err != nil {\n\t\t\t\treturn reflect.Value{}, err\n\t\t\t}\n", New: "\t\t\tfield := v.FieldByIndex(id)\n", Rule: "C06.nil"},
+			{Name: "field-path walker dereferences without the nil test", File: "eval.go", Old: "\t\t\tif v.IsNil() {\n\t\t\t\treturn reflect.Value{}, fmt.Errorf(\"nil pointer to embedded struct %s\", v.Type().Elem())\n\t\t\t}\n\t\t\tv = v.Elem()", New: "\t\t\tv = v.Elem()", Rule: "C06.nil"},
+			{Name: "variables unwrapped at assignment instead of at lookup, loop variables forgotten (agent seed C06/6)", File: "eval.go", Old: "\t\tv, ok := sc.variables[name]\n\t\tif ok {\n\t\t\treturn indirectEface(v), nil\n\t\t}", New: "\t\tv, ok := sc.variables[name]\n\t\tif ok {\n\t\t\treturn v, nil\n\t\t}", Rule: "C06.same"},
 			{Name: "absent key in the middle of a chain yields nil instead of an error", File: "eval.go", Old: "\t\t\tif resolved.Kind() == reflect.Map && i == len(node.Field)-1 {", New: "\t\t\tif resolved.Kind() == reflect.Map {", Rule: "C06.nil"},
 		},
 	})
@@ -54,6 +57,8 @@ func runC06(c *an.Ctx) {
 	c06nil(c)
 	c06same(c)
 	c06cache(c)
+	c06fieldPath(c)
+	c06unwrap(c)
 }
 
 func c06bounds(c *an.Ctx) {
@@ -267,7 +272,7 @@ func c06unexp(c *an.Ctx) {
 	}
 	isFieldRead := func(call *ast.CallExpr) bool {
 		switch an.CalleeName(info, call) {
-		case "(reflect.Value).FieldByIndex", "(reflect.Value).FieldByName", "(reflect.Value).Field":
+		case "(reflect.Value).FieldByIndex", "(reflect.Value).FieldByName", "(reflect.Value).Field", "jet.fieldByIndex":
 			return true
 		}
 		return false
@@ -361,7 +366,7 @@ func c06unexp(c *an.Ctx) {
 		read := readOf[r]
 		s := an.Str(read)
 		key := "resolveIndex/field-return"
-		cached := len(read.Args) == 1 && fromCache(read.Args[0], 0)
+		cached := len(read.Args) >= 1 && fromCache(read.Args[len(read.Args)-1], 0) // the index path is the last argument
 		guarded := len(pr.At[r]) > 0
 		for _, st := range pr.At[r] {
 			g := false
@@ -554,6 +559,71 @@ func c06same(c *an.Ctx) {
 // c06cache: the lazily built field-index cache must own every index path and every per-type map it
 // stores.  A path that shares its backing array with a sibling's path (append onto the parent path) makes
 // a.b resolve to another field's value without any error.
+// c06fieldPath: reflect.Value.FieldByIndex panics (with a string) when the path of a promoted field leads
+// through a nil embedded pointer, so evaluator code never calls it: promoted fields are reached by a walker
+// that tests IsNil before every Elem on the path.
+func c06fieldPath(c *an.Ctx) {
+	p := c.P
+	eval := p.Eval()
+	n := 0
+	for _, f := range an.SortedFns(eval) {
+		if f.Pkg != p.Jet || f.Body == nil {
+			continue
+		}
+		info := f.Info()
+		for _, call := range p.CallsIn(f, "(reflect.Value).FieldByIndex") {
+			n++
+			c.Bad("C06.nil", f.Name+"/field-path", call.Pos(), nil, "%s reads a field through reflect.Value.FieldByIndex: for a promoted field behind a nil embedded pointer it panics with a string, which Execute re-panics instead of returning an error", f.Name)
+		}
+		// a walker: a loop over an index path ([]int) applying Field(i) — every Elem() in it lies behind IsNil() == false
+		var elems []ast.Node
+		walker := false
+		an.InspectOwn(f, func(m ast.Node) bool {
+			if rs, ok := m.(*ast.RangeStmt); ok {
+				if tv, has := info.Types[rs.X]; has && tv.Type != nil && tv.Type.String() == "[]int" {
+					ast.Inspect(rs.Body, func(k ast.Node) bool {
+						if call, ok := k.(*ast.CallExpr); ok {
+							switch an.CalleeName(info, call) {
+							case "(reflect.Value).Field":
+								walker = true
+							case "(reflect.Value).Elem":
+								elems = append(elems, call)
+							}
+						}
+						return true
+					})
+				}
+			}
+			return true
+		})
+		if !walker {
+			continue
+		}
+		n++
+		pr := p.ProbeFn(f, elems, an.Hooks{})
+		c.States += pr.X.Visited
+		ok := true
+		for _, e := range elems {
+			if len(pr.At[e]) == 0 {
+				ok = false
+			}
+			for _, st := range pr.At[e] {
+				guarded := false
+				for k, v := range st.Facts {
+					if !v && strings.HasSuffix(an.PlainKey(k), ".IsNil()") {
+						guarded = true
+					}
+				}
+				if !guarded {
+					ok = false
+				}
+			}
+		}
+		c.Check(ok, "C06.nil", f.Name+"/field-path", f.Pos(), "the field-path walker dereferences an embedded pointer only after IsNil() was false", f.Name+" walks a field index path and dereferences an embedded pointer without a preceding IsNil() test: a nil embedded pointer panics")
+	}
+	c.Expect("C06.nil", "field-path walkers / FieldByIndex sites", n, 1)
+}
+
 func c06cache(c *an.Ctx) {
 	p := c.P
 	o, _ := p.Jet.Types.Scope().Lookup("cachedStructsFieldIndex").(*types.Var)
@@ -572,4 +642,89 @@ func c06cache(c *an.Ctx) {
 	})
 	n := checkFresh(c, "C06.cache", stores, "a cached field path that shares storage with another path (or with its caller's scratch path) is overwritten by the sibling that is cached next, so field access silently yields another field's value", false)
 	c.Expect("C06.cache", "stores into the struct field-index cache", n, 2)
+}
+
+// c06unwrap: a variable's value reaches every access "through any interfaces in between": either
+// Runtime.resolve unwraps what it reads from the scope chain (indirectEface at every such return), or —
+// if it does not — every store into a scope's variables during execution stores an unwrapped value.
+func c06unwrap(c *an.Ctx) {
+	p := c.P
+	f := c.Fn("C06.same", "(*Runtime).resolve")
+	if f == nil {
+		return
+	}
+	info := f.Info()
+	// returns of resolve that yield a value read from a variables map / globals / built-ins
+	nRead, nRaw := 0, 0
+	an.InspectOwn(f, func(n ast.Node) bool {
+		ret, ok := n.(*ast.ReturnStmt)
+		if !ok || len(ret.Results) != 2 {
+			return true
+		}
+		res := an.Unparen(ret.Results[0])
+		inner := res
+		wrapped := false
+		if call, ok := res.(*ast.CallExpr); ok && an.IsCallTo(info, call, "jet.indirectEface") && len(call.Args) == 1 {
+			inner, wrapped = an.Unparen(call.Args[0]), true
+		}
+		id, ok := inner.(*ast.Ident)
+		if !ok {
+			return true
+		}
+		fromMap := false
+		o := an.ObjOf(info, id)
+		an.InspectOwn(f, func(m ast.Node) bool {
+			if as, ok := m.(*ast.AssignStmt); ok && len(as.Lhs) == 2 && len(as.Rhs) == 1 {
+				if l, ok := as.Lhs[0].(*ast.Ident); ok && an.ObjOf(info, l) == o {
+					if _, isIx := an.Unparen(as.Rhs[0]).(*ast.IndexExpr); isIx {
+						fromMap = true
+					}
+				}
+			}
+			return true
+		})
+		if !fromMap {
+			return true
+		}
+		nRead++
+		if !wrapped {
+			nRaw++
+		}
+		return true
+	})
+	c.Expect("C06.same", "returns of resolve that yield a looked-up variable", nRead, 2)
+	if nRaw == 0 {
+		c.OK("C06.same", "(*Runtime).resolve/unwraps", f.Pos(), "every looked-up variable is unwrapped (indirectEface) before it is used (%d returns)", nRead)
+		return
+	}
+	// resolve hands out raw values: then every store must unwrap
+	var raw []string
+	for _, g := range an.SortedFns(p.Eval()) {
+		if g.Pkg != p.Jet || g.Body == nil {
+			continue
+		}
+		ginfo := g.Info()
+		an.InspectOwn(g, func(n ast.Node) bool {
+			an.Assigns(n, func(lhs, rhs ast.Expr, _ token.Token) {
+				ix, ok := an.Unparen(lhs).(*ast.IndexExpr)
+				if !ok || rhs == nil || p.FieldKey(ginfo, ix.X) != "scope.variables" {
+					return
+				}
+				r := an.Unparen(rhs)
+				if call, ok := r.(*ast.CallExpr); ok && an.IsCallTo(ginfo, call, "jet.indirectEface", "reflect.ValueOf") {
+					return
+				}
+				if id, ok := r.(*ast.Ident); ok && (id.Name == "valueBoolTRUE" || id.Name == "valueBoolFALSE") {
+					return
+				}
+				raw = append(raw, fmt.Sprintf("%s (%s)", an.StmtStr(n), p.RelPos(lhs.Pos())))
+			})
+			return true
+		})
+	}
+	if len(raw) == 0 {
+		c.OK("C06.same", "(*Runtime).resolve/unwraps", f.Pos(), "resolve returns stored values as they are, and every store into a scope unwraps the value first")
+	} else {
+		c.Bad("C06.same", "(*Runtime).resolve/unwraps", f.Pos(), raw, "resolve returns variables without unwrapping interface values, and %d store(s) into a scope keep the value wrapped: indexing, slicing or using such a variable as an index fails although the value behind the interface supports it", len(raw))
+	}
 }
